@@ -257,6 +257,7 @@ macro_rules! probe {
 }
 
 fn cfg_case(rng: &mut Rng, net: &Net) {
+    let case_no = rng.below(2);
     let flavour = *rng.pick(&["redis", "cluster", "sentinel"]);
     let multi = flavour != "redis";
     let shape = rng.below(10);
@@ -327,10 +328,24 @@ fn cfg_case(rng: &mut Rng, net: &Net) {
     let built = catch_unwind(AssertUnwindSafe(|| -> Built {
         match flavour {
             "redis" => {
-                let cfg = deadpool_redis::Config {
-                    url: url_strings.as_ref().map(|v| v[0].clone()),
-                    connection: conn_infos.as_ref().map(|v| v[0].clone()),
-                    pool: pool_cfg,
+                // the convenience constructors are other routes to the same configuration
+                let via_ctor = case_no % 2 == 0;
+                let cfg = match (&url_strings, &conn_infos) {
+                    (Some(u), None) if via_ctor => {
+                        let mut c = deadpool_redis::Config::from_url(u[0].clone());
+                        c.pool = pool_cfg;
+                        c
+                    }
+                    (None, Some(ci)) if via_ctor => {
+                        let mut c = deadpool_redis::Config::from_connection_info(ci[0].clone());
+                        c.pool = pool_cfg;
+                        c
+                    }
+                    _ => deadpool_redis::Config {
+                        url: url_strings.as_ref().map(|v| v[0].clone()),
+                        connection: conn_infos.as_ref().map(|v| v[0].clone()),
+                        pool: pool_cfg,
+                    },
                 };
                 match cfg.create_pool(Some(Runtime::Tokio1)) {
                     Ok(p) => Built::Pool(probe!(p)),
@@ -341,11 +356,18 @@ fn cfg_case(rng: &mut Rng, net: &Net) {
                 }
             }
             "cluster" => {
-                let cfg = cluster::Config {
-                    urls: url_strings.clone(),
-                    connections: conn_infos.clone(),
-                    pool: pool_cfg,
-                    read_from_replicas: false,
+                let cfg = match (&url_strings, &conn_infos) {
+                    (Some(u), None) if case_no % 2 == 0 => {
+                        let mut c = cluster::Config::from_urls(u.clone());
+                        c.pool = pool_cfg;
+                        c
+                    }
+                    _ => cluster::Config {
+                        urls: url_strings.clone(),
+                        connections: conn_infos.clone(),
+                        pool: pool_cfg,
+                        read_from_replicas: false,
+                    },
                 };
                 match cfg.create_pool(Some(Runtime::Tokio1)) {
                     // the cluster pool has no Debug impl (its connection type has none)
@@ -357,13 +379,24 @@ fn cfg_case(rng: &mut Rng, net: &Net) {
                 }
             }
             _ => {
-                let cfg = sentinel::Config {
-                    urls: url_strings.clone(),
-                    connections: conn_infos.clone(),
-                    server_type: sentinel::SentinelServerType::Master,
-                    master_name: "mymaster".into(),
-                    pool: pool_cfg,
-                    node_connection_info: None,
+                let cfg = match (&url_strings, &conn_infos) {
+                    (Some(u), None) if case_no % 2 == 0 => {
+                        let mut c = sentinel::Config::from_urls(
+                            u.clone(),
+                            "mymaster".to_string(),
+                            sentinel::SentinelServerType::Master,
+                        );
+                        c.pool = pool_cfg;
+                        c
+                    }
+                    _ => sentinel::Config {
+                        urls: url_strings.clone(),
+                        connections: conn_infos.clone(),
+                        server_type: sentinel::SentinelServerType::Master,
+                        master_name: "mymaster".into(),
+                        pool: pool_cfg,
+                        node_connection_info: None,
+                    },
                 };
                 match cfg.create_pool(Some(Runtime::Tokio1)) {
                     Ok(p) => Built::Pool(probe!(p)),
